@@ -50,18 +50,20 @@ class Lock:
         self.f.close()
 
 
-def build_tools(log):
-    """extractor, harness and CLI binary, from /repo's current working tree."""
+def build_tools(log, drivers):
+    """extractor, harness drivers and CLI binary, from /repo's current working tree."""
     with Lock("build"):
         rc, out = sh(["go", "build", "-o", os.path.join(BUILD, "extract"), "."], cwd=os.path.join(VERIF, "extract"), env=GOENV, timeout=600)
         if rc != 0:
             log.append("extract build failed:\n" + out)
             return False
         shutil.copyfile(os.path.join(REPO, "go.sum"), os.path.join(VERIF, "harness", "go.sum"))
-        rc, out = sh(["go", "build", "-o", os.path.join(BUILD, "vh"), "./cmd/vh"], cwd=os.path.join(VERIF, "harness"), env=GOENV, timeout=900)
-        if rc != 0:
-            log.append("harness build failed:\n" + out)
-            return False
+        for d in drivers:
+            rc, out = sh(["go", "build"] + d.get("build_flags", []) + ["-o", os.path.join(BUILD, "vh-" + d["name"]), "./cmd/" + d.get("cmd", d["name"])],
+                         cwd=os.path.join(VERIF, "harness"), env=GOENV, timeout=900)
+            if rc != 0:
+                log.append("harness build failed (%s):\n%s" % (d["name"], out))
+                return False
         rc, out = sh(["go", "build", "-o", os.path.join(BUILD, "task"), "./cmd/task"], cwd=REPO, env=GOENV, timeout=900)
         if rc != 0:
             log.append("task CLI build failed:\n" + out)
@@ -75,11 +77,20 @@ def coq_make(targets, log, timeout=1500):
         rc, out = sh([os.path.join(BUILD, "extract"), REPO, os.path.join(COQ, "Extracted", "Facts.v")], timeout=120)
         if rc != 0:
             return False, "extract failed:\n" + out
-        if not os.path.exists(os.path.join(COQ, "Makefile")) or \
-                os.path.getmtime(os.path.join(COQ, "Makefile")) < os.path.getmtime(os.path.join(COQ, "_CoqProject")):
-            sh(["coq_makefile", "-f", "_CoqProject", "-o", "Makefile"], cwd=COQ, timeout=120)
+        gen_coq_project()
         rc, out = sh(["make", "-j16"] + targets, cwd=COQ, timeout=timeout)
         return rc == 0, out
+
+
+def gen_coq_project():
+    """_CoqProject = concatenation of project.d/*.txt; Makefile regenerated when it changes."""
+    import glob
+    content = "".join(open(f).read() for f in sorted(glob.glob(os.path.join(COQ, "project.d", "*.txt"))))
+    cp = os.path.join(COQ, "_CoqProject")
+    old = open(cp).read() if os.path.exists(cp) else None
+    if old != content or not os.path.exists(os.path.join(COQ, "Makefile")):
+        open(cp, "w").write(content)
+        sh(["coq_makefile", "-f", "_CoqProject", "-o", "Makefile"], cwd=COQ, timeout=120)
 
 
 def theorem_names(vfile):
@@ -105,7 +116,7 @@ def parse_assumptions(vfile):
 
 def run_driver(drv, seed, n, tier, outdir, replay=None, extra=None):
     os.makedirs(outdir, exist_ok=True)
-    cmd = [os.path.join(BUILD, "vh"), drv, "-seed", str(seed), "-n", str(n), "-out", outdir, "-tier", tier]
+    cmd = [os.path.join(BUILD, "vh-" + drv), "-seed", str(seed), "-n", str(n), "-out", outdir, "-tier", tier]
     if replay:
         cmd += ["-replay", replay]
     if extra:
@@ -132,10 +143,13 @@ def eval_cases(outdir):
 
 
 def load_known():
-    p = os.path.join(VERIF, "KNOWN_FINDINGS.json")
-    if not os.path.exists(p):
-        return []
-    return [f for f in json.load(open(p)).get("findings", []) if f.get("status", "open") == "open"]
+    """open findings of KNOWN_FINDINGS.json plus the fragments known.d/*.json (same format)."""
+    import glob
+    out = []
+    for p in [os.path.join(VERIF, "KNOWN_FINDINGS.json")] + sorted(glob.glob(os.path.join(VERIF, "known.d", "*.json"))):
+        if os.path.exists(p):
+            out += [f for f in json.load(open(p)).get("findings", []) if f.get("status", "open") == "open"]
+    return out
 
 
 def main():
@@ -169,7 +183,7 @@ def main():
     violations = []      # (signature, description, replay_path or None)
     notes = []
 
-    if not build_tools(log):
+    if not build_tools(log, prop["drivers"]):
         print("\n".join(log))
         # the tree no longer builds with the harness: the tie cannot be checked
         rp = write_replay(evdir, pid, seed, "build", {"broken": "build of harness/CLI against /repo", "log": log[-1][-4000:]})
